@@ -140,7 +140,7 @@ ObsRet(o, ev) ==
       vDoc == IF data /\ ev.rc \notin Documented THEN {V("C09:RetDocumented", ev.rc, -1)} ELSE {}
       vAll == IF data /\ ev.rc = "DATA" /\ ev.consumed # c.len THEN {V("C09:DataMeansAll", d, -1)} ELSE {}
       vLess == IF data /\ ev.rc = "DATA_OTHER" /\ ~(ev.consumed < c.len) THEN {V("C09:OtherMeansLess", d, -1)} ELSE {}
-      vCons == IF data /\ (ev.consumed < 0 \/ ev.consumed > c.len) THEN {V("C09:ConsumedWithinLen", d, -1)} ELSE {}
+      vCons == IF data /\ ev.rc \in {"DATA", "DATA_OTHER"} /\ (ev.consumed < 0 \/ ev.consumed > c.len) THEN {V("C09:ConsumedWithinLen", d, -1)} ELSE {}
       vCnt == IF data /\ o.counters_known /\ ~o.faulted /\
                  (IF prev \in {"STOP", "ERROR"} \/ ev.rc \in {"ERROR", "STOP", "CLOSED"} THEN cnt \notin {old, old + c.len} ELSE cnt # old + c.len)
               THEN {V("C09:CountersMatch", d, -1)} ELSE {}
@@ -155,7 +155,7 @@ ObsRet(o, ev) ==
       vWait == IF d = "req" /\ c.k = "data" /\ o.waitarmed /\ o.waitconnect >= 0 /\ ev.consumed > 0
                THEN {V("C16:ConnectSuspends", "consumed", o.waitconnect)} ELSE {}
       zero == IF data /\ ev.rc = "DATA_OTHER" /\ ev.consumed = 0 THEN o.zero + 1 ELSE IF data THEN 0 ELSE o.zero
-      vPing == IF zero >= 4 THEN {V("C09:NoPingPong", d, -1)} ELSE {}
+      vPing == IF zero >= 4 /\ o.cfg.mode = "proto" THEN {V("C09:NoPingPong", d, -1)} ELSE {}
       o1 == IF data THEN [o EXCEPT !.lastrc[d] = ev.rc, !.counter[d] = cnt,
                                    !.tunnel[d] = @ \/ ev.rc = "TUNNEL"]
             ELSE [o EXCEPT !.closed = TRUE, !.counter = [req |-> ev.inc, res |-> ev.outc]]
